@@ -1301,7 +1301,7 @@ pub fn run(opts: &Opts) {
                 s.finish();
             }
         } else {
-            let (cases, blocks) = if opts.thorough() { (40 * opts.scale, 60) } else { (6 * opts.scale, 40) };
+            let (cases, blocks) = if opts.thorough() { (90 * opts.scale, 60) } else { (6 * opts.scale, 40) };
             for _ in 0..cases {
                 nfilter::gen_case(&mut out, &mut rng, &base, blocks);
             }
@@ -1336,7 +1336,7 @@ pub fn run(opts: &Opts) {
             s.finish();
         }
     } else {
-        let (cases, blocks) = if opts.thorough() { (60 * opts.scale, 70) } else { (8 * opts.scale, 45) };
+        let (cases, blocks) = if opts.thorough() { (160 * opts.scale, 70) } else { (8 * opts.scale, 45) };
         for _ in 0..cases {
             gen_case(&mut out, &mut rng, &base, blocks);
         }
